@@ -196,6 +196,26 @@ def enumerate_cases(tier):
                        ("interp_axis", {"new": [min(labs) - 1.0, float(labs[0]), (min(labs) + max(labs)) / 2.0, max(labs) + 1.0], "left": "nan", "right": 99.0, "by": by})]
                 for op, p in ps:
                     yield "axis-by-dataset-position-grid", {"op": op, "ds": ds, "dsdims": ["x", "y"], "dim": d, "p": p}
+    # joining datasets over three dimensions with align=True: which secondary dimensions of the later datasets differ (y, z, both) x how
+    lab = {"x": [3, 1], "y": [0.5, 2.5, 1.5], "z": ["b", "c", "a"]}
+    rel = {"permuted": {"y": [1.5, 0.5, 2.5], "z": ["a", "b", "c"]}, "overlapping": {"y": [2.5, 7.5], "z": ["c", "q"]}, "interior": {"y": [0.5, 9.5, 1.5], "z": ["b", "m", "a"]}}
+    variables = [["v0", {"dims": ["x", "y", "z"], "labels": [lab["x"], lab["y"], lab["z"]], "vk": "f", "base": 0, "attrs": {}}],
+                 ["v1", {"dims": ["z", "x"], "labels": [lab["z"], lab["x"]], "vk": "i", "base": 40, "attrs": {}}],
+                 ["v2", {"dims": ["x", "y"], "labels": [lab["x"], lab["y"]], "vk": "f", "base": 60, "attrs": {}}]]
+    ds3 = {"vars": variables, "attrs": dict(DS_ATTRS)}
+    for which in (("y",), ("z",), ("y", "z")):
+        for r in rel:
+            for op in ("stack_ds", "concatenate_ds"):
+                for sort in (False, True):
+                    for n in (2, 3):
+                        others = []
+                        for j in range(n - 1):
+                            o = {d: list(rel[r if j == 0 else "permuted"][d]) for d in which}
+                            if op == "concatenate_ds":
+                                o["x"] = [10 * (j + 1) + 1, 10 * (j + 1)]
+                            others.append(o)
+                        yield "join-align-grid", {"op": op, "ds": ds3, "dsdims": ["x", "y", "z"], "dim": "x",
+                                                  "p": {"others": others, "align": True, "keys": None, "sort": sort}}
     # Dataset op Dataset where a variable is laid out differently in the second dataset: square shapes x every subset of
     # {2-d variable transposed, 1-d variable along the other dimension} x which variable comes first x operator
     for labs in ([3, 1, 2], [1, 2], ["b", "a"]):
